@@ -153,8 +153,9 @@ Send(c, dest, kind, forged) ==
 (*   Ping           : org.freedesktop.DBus.Peer on the bus object ReservedName : RequestName for a unique-looking name   *)
 (*   UserOfSelf     : GetConnectionUnixUser of a connection that authenticated anonymously (no user known)            *)
 (*   UserOfNobody   : GetConnectionUnixUser of a name nobody owns                                                     *)
+(*   OwnBusName     : RequestName for the bus's own name, which no client can own                                      *)
 BusCalls == {"GetId", "HelloAgain", "NoSuchMethod", "SignalToBus", "NotImplemented", "WrongArgs", "OtherPath", "OtherIface",
-             "Ping", "ReservedName", "UserOfSelf", "UserOfNobody"}
+             "Ping", "ReservedName", "UserOfSelf", "UserOfNobody", "OwnBusName"}
 ToBus(c, what) ==
     /\ Live(c)
     /\ out' = IF what = "SignalToBus" THEN NoOut          \* a signal addressed to the bus: swallowed
@@ -167,6 +168,7 @@ ToBus(c, what) ==
                                [] what = "OtherIface" -> ErrM("UnknownMethod")
                                [] what = "Ping" -> Ret("Ping", 0)
                                [] what = "ReservedName" -> ErrM("InvalidArgs")
+                               [] what = "OwnBusName" -> ErrM("InvalidArgs")       \* RequestName for org.freedesktop.DBus itself
                                [] what = "UserOfSelf" -> ErrM("org.freedesktop.DBus.Error")
                                [] what = "UserOfNobody" -> ErrM("NameHasNoOwner")>>)
     /\ UNCHANGED <<uid, nextId, queue, allow, rules>>
@@ -229,6 +231,7 @@ NextNames ==
     \/ \E c \in Client, n \in Name, al \in BOOLEAN, rp \in BOOLEAN, nq \in BOOLEAN : RequestName(c, n, al, rp, nq)
     \/ \E c \in Client, n \in Name : ReleaseName(c, n) \/ GetNameOwner(c, n) \/ ListQueued(c, n)
     \/ \E c \in Client, k \in 1..MaxId : GetUniqueOwner(c, k)
+    \/ \E c \in Client : ToBus(c, "OwnBusName")
 SpecNames == Init /\ [][NextNames]_vars
 
 NextRouting ==
